@@ -655,11 +655,75 @@ class Interp:
                 if s["k"] == "assign" and s["rv"]["k"] in ("ref", "rawptr") and s["rv"].get("mut"):
                     rp = s["rv"]["place"]
                     if "deref" not in rp["proj"]:
+                        # a `&mut` that is provably only read through (e.g. the environment of a spliced FnMut closure that
+                        # captures by shared reference) does not modify its referent
+                        if s["rv"]["k"] == "ref" and not pl["proj"] and self._readonly_ref(pl["local"]):
+                            continue
                         out.add(rp["local"])
             t = blk["term"]
             if t["k"] == "call" and "deref" not in t["dest"]["proj"]:
                 out.add(t["dest"]["local"])
         return out
+
+    def _readonly_ref(self, r, depth=0, seen=None):
+        """every use of reference local `r` in the body is a read through it, a shared reborrow, or a move/copy/`&mut *`
+        reborrow into a local with the same property; never a store through it, never an argument of a call"""
+        seen = seen if seen is not None else set()
+        if r in seen:
+            return True
+        seen.add(r)
+        if depth > 8:
+            return False
+        if not hasattr(self, "_ro_cache"):
+            self._ro_cache = {}
+        if depth == 0 and r in self._ro_cache:
+            return self._ro_cache[r]
+
+        def base(op):
+            p = op.get("move") or op.get("copy") if isinstance(op, dict) else None
+            return p
+        ok = True
+        for blk in self.body.blocks:
+            if blk["cleanup"]:
+                continue
+            for s in blk["stmts"]:
+                pl = s["place"]
+                if pl["local"] == r and pl["proj"]:
+                    ok = False      # store through r
+                if s["k"] != "assign":
+                    continue
+                rv = s["rv"]
+                ops = [rv.get("a"), rv.get("b")] + list(rv.get("fields", []) or [])
+                for o in ops:
+                    p = base(o)
+                    if p is None or p["local"] != r:
+                        continue
+                    if not p["proj"]:
+                        # the reference itself flows on
+                        if rv["k"] == "use" and not pl["proj"]:
+                            ok = ok and self._readonly_ref(pl["local"], depth + 1, seen)
+                        else:
+                            ok = False
+                if rv["k"] in ("ref", "rawptr") and rv["place"]["local"] == r:
+                    if rv.get("mut") or rv["k"] == "rawptr":
+                        ok = ok and rv["k"] == "ref" and not pl["proj"] and self._readonly_ref(pl["local"], depth + 1, seen)
+                if rv["k"] in ("discr", "len") and rv.get("place", {}).get("local") == r:
+                    pass
+            t = blk["term"]
+            if t and t["k"] == "call":
+                for a in t["args"]:
+                    p = base(a)
+                    if p is not None and p["local"] == r:
+                        ok = False
+                if t["dest"]["local"] == r and t["dest"]["proj"]:
+                    ok = False
+            elif t and t["k"] == "drop":
+                pass
+            if not ok:
+                break
+        if depth == 0:
+            self._ro_cache[r] = ok
+        return ok
 
     def _havoc_loop(self, st, h):
         """loop summarisation: forget everything the loop may modify (locals by syntax, memory by a
@@ -690,7 +754,7 @@ class Interp:
             new = set()
             for o in sub.outcomes:
                 for e in o.trace:
-                    if e[0] in ("store", "push", "clear", "havoc") and e[2][0][0] in ("A", "S"):
+                    if e[0] in ("store", "push", "clear", "havoc") and e[2][0][0] in ("A", "S", "L"):
                         new.add(e[2])
             self.unmodelled |= sub.unmodelled
             self.ret_info.update(sub.ret_info)
